@@ -206,6 +206,13 @@ def _fromspec_chunk(args):
             spec = parse_version_specifier(text)
             shape = f"parsed {op}"
             ctx = {"name": name, "spec": text}
+        elif it["k"] == "fromhole":
+            from dep_logic.specifiers import UnionSpecifier
+            h = it["h"]
+            lo, hi = Version(rel_text(h["lo"]["rel"])), Version(rel_text(h["hi"]["rel"]))
+            spec = UnionSpecifier((RangeSpecifier(max=lo, include_max=bool(h["ui"])), RangeSpecifier(min=hi, include_min=bool(h["li"]))))
+            shape = "hole"
+            ctx = {"name": name, "spec": f"<{'=' if h['ui'] else ''}{lo}||>{'=' if h['li'] else ''}{hi}"}
         else:
             r = it["r"]
             lo = Version(rel_text(r["lo"][0]["rel"])) if r["lo"] else None
